@@ -60,6 +60,12 @@ pub fn cases(ctx: &Ctx) -> Vec<WCase> {
         sp.catchup = rr.pick(&[1usize, 2, 5]);
         sp.max_behind = rr.pick(&[1usize, 5, 10]);
         s.specs.push(sp);
+        if rr.chance(0.3) {
+            let k = s.kill.clone().unwrap();
+            let mut l = s.link.clone();
+            l.stragglers.push(Straggler { from_ms: k.at_ms.saturating_sub(rr.range(50, 400)), to_ms: k.at_ms + s.timeout_ms, every: rr.range(1, 3), delay_ms: s.timeout_ms + rr.range(20, 400) });
+            s.link_overrides.push((peer_addr(0), spec_addr(0), l));
+        }
         s.settle_ms = 1500;
         out.push(wcase(format!("death-{i}"), s));
     }
@@ -75,8 +81,14 @@ pub fn cases(ctx: &Ctx) -> Vec<WCase> {
         // a slow spectator (ticks at 1/1.5 .. 1/3 of the host's rate) is permanently behind and catches up all the time; a
         // pause would not do: with the short timeouts of this family the host would drop the silent spectator
         sp.period_factor = rr.pick(&[1.5, 2.0, 3.0]);
-        let _ = k;
         s.specs.push(sp);
+        // half of them: straggling copies of host->spectator packets sent before the drop arrive after it (old connection
+        // statuses behind newer ones)
+        if rr.chance(0.5) {
+            let mut l = s.link.clone();
+            l.stragglers.push(Straggler { from_ms: k.at_ms.saturating_sub(rr.range(50, 400)), to_ms: k.at_ms + s.timeout_ms, every: rr.range(1, 3), delay_ms: s.timeout_ms + rr.range(20, 400) });
+            s.link_overrides.push((peer_addr(0), spec_addr(0), l));
+        }
         s.settle_ms = 2000;
         out.push(wcase(format!("deathcatchup-{i}"), s));
     }
